@@ -282,6 +282,11 @@ func main() {
 			rep.ByBackend["structural"]++
 		} else {
 			nm := so.name
+			if nm == "pkg/no-mutable-globals" {
+				// a package-level variable is hidden shared state only if something writes it; the structural check cannot
+				// tell a lookup table from a cache: undecided, the oracle (history-dependence, concurrent readers) decides
+				nm = "engine/pkg: package-level variable (possible hidden shared state): " + so.why
+			}
 			if nm == "pkg/subset" {
 				// a construct outside the verified subset (defer / recover, select, channels, unsafe, reflect, goroutines
 				// outside the async methods) makes the affected proofs undecided; it is not itself a violation
